@@ -30,6 +30,24 @@ CLAIMS = {
             "and their substitution instances are replayed and TLC validates each truth value against the numeric "
             "order of the specification (Trace_C29)",
             "6/C29", TRUSTED, "TLA+ model of the numeric order + TLC trace validation"),
+    "C33": ("model_checking",
+            "TLC explores all call histories of the sieve state machine up to the depth bound (quick 3, thorough 4; "
+            "14 limits, segment sizes 2/3/8 bits and 8192, two iterators), checking the implementation-shaped "
+            "model (transcribed segmented _extend, vector storage with high-water mark) against the abstract "
+            "contract and against out-of-bounds indices in every state; a pre-repair variant must be refuted; every "
+            "maximal history plus seeded random histories of length 12-40 are replayed on the real Sieve and "
+            "re-executed by the trace specification",
+            "6/C33", TRUSTED + "; hook H4 sets the segment size in bits so that segment boundaries fall at small limits",
+            "TLA+ state machine (L1 contract + L2 transcription) checked by TLC; behaviours replayed; TLC trace validation"),
+    "C25": ("model_checking",
+            "TLC checks the transcription of CSRMatrix::set/get from every canonical matrix of the bounded shapes "
+            "(canonical format preserved, dense refinement, get = dense cell; a wrong-search variant must be refuted), "
+            "replays every transition on a real CSRMatrix demanding identical arrays, and validates from_coo with "
+            "duplicates, transpose, conjugate(-transpose), binop add/sub, elementwise product, row/column scaling, "
+            "diagonal and eq on all pairs of small matrices against their dense meaning",
+            "6/C25", TRUSTED + "; csr_matmat_pass1/2 have no public entry point (mul_matrix throws NotImplemented, the "
+            "passes need private array sizes) and are not covered; jacobian is covered by C10-style checks only",
+            "TLA+ transcription + refinement checked by TLC; TLC trace validation of replayed transitions"),
 }
 
 NOT_APPLICABLE = {
